@@ -123,6 +123,9 @@ pub struct Ans {
     /// reader piece size for respond (0 = whole)
     #[serde(default)]
     pub piece: usize,
+    /// writer: call flush() before the first write
+    #[serde(default)]
+    pub flush_first: bool,
 }
 
 fn default_status() -> u16 {
